@@ -161,16 +161,28 @@ const MAX_UTF8_ENCODED_LEN: usize = 4;
 /// reading will begin with the actual text content.
 struct Utf8Encoder<S>
 where
-	S: Iterator<Item = io::Result<char>>,
+	S: Decoder,
 {
 	source: S,
 	started: bool,
 	remainder: ArrayBuffer<MAX_UTF8_ENCODED_LEN>,
 }
 
+/// A source of decoded characters for a [`Utf8Encoder`].
+trait Decoder: Iterator<Item = io::Result<char>> {
+	/// Returns whether the decoder can produce its next character from input
+	/// that its reader has already buffered, without reading (and possibly
+	/// waiting for) more.
+	fn is_ready(&self) -> bool;
+}
+
+/// The largest number of bytes that encode a single character in UTF-16 or
+/// UTF-32.
+const MAX_SOURCE_ENCODED_LEN: usize = 4;
+
 impl<S> Utf8Encoder<S>
 where
-	S: Iterator<Item = io::Result<char>>,
+	S: Decoder,
 {
 	fn new(source: S) -> Self {
 		Self {
@@ -195,7 +207,7 @@ where
 
 impl<S> Read for Utf8Encoder<S>
 where
-	S: Iterator<Item = io::Result<char>>,
+	S: Decoder,
 {
 	fn read(&mut self, mut buf: &mut [u8]) -> io::Result<usize> {
 		let mut written = 0;
@@ -212,7 +224,14 @@ where
 		}
 
 		// Second, emit as much as we can directly into the destination buffer.
+		//
+		// Like any reader, we return what we have as soon as getting more could
+		// mean waiting for the source, so that the documents of a stream reach
+		// the parser as they arrive rather than when the buffer is full.
 		while buf.len() >= MAX_UTF8_ENCODED_LEN {
+			if written > 0 && !self.source.is_ready() {
+				return Ok(written);
+			}
 			let ch = match self.next_char() {
 				Some(Ok(ch)) => ch,
 				Some(Err(err)) => return Err(err),
@@ -227,6 +246,9 @@ where
 		// remaining space, storing the remainder of any character that we
 		// cannot fully emit at this time.
 		while !buf.is_empty() {
+			if written > 0 && !self.source.is_ready() {
+				return Ok(written);
+			}
 			let ch = match self.next_char() {
 				Some(Ok(ch)) => ch,
 				Some(Err(err)) => return Err(err),
@@ -259,6 +281,8 @@ where
 	source: R,
 	pos: u64,
 	buf: Option<u16>,
+	/// The number of bytes known to remain in the source's buffer.
+	buffered: usize,
 }
 
 impl<R> Utf16Decoder<R>
@@ -271,17 +295,30 @@ where
 			source,
 			pos: 0,
 			buf: None,
+			buffered: 0,
 		}
 	}
 
 	fn next_u16(&mut self) -> io::Result<Option<u16>> {
-		if self.source.fill_buf()?.is_empty() {
+		self.buffered = 0;
+		let available = self.source.fill_buf()?.len();
+		if available == 0 {
 			return Ok(None);
 		}
 		let mut next = [0u8; 2];
 		self.source.read_exact(&mut next)?;
+		self.buffered = available.saturating_sub(next.len());
 		self.pos += next.len() as u64;
 		Ok(Some(self.endianness.decode_u16(next)))
+	}
+}
+
+impl<R> Decoder for Utf16Decoder<R>
+where
+	R: BufRead,
+{
+	fn is_ready(&self) -> bool {
+		self.buffered >= MAX_SOURCE_ENCODED_LEN
 	}
 }
 
@@ -348,6 +385,8 @@ where
 	endianness: Endianness,
 	source: R,
 	pos: u64,
+	/// The number of bytes known to remain in the source's buffer.
+	buffered: usize,
 }
 
 impl<R> Utf32Decoder<R>
@@ -359,7 +398,17 @@ where
 			endianness,
 			source,
 			pos: 0,
+			buffered: 0,
 		}
+	}
+}
+
+impl<R> Decoder for Utf32Decoder<R>
+where
+	R: BufRead,
+{
+	fn is_ready(&self) -> bool {
+		self.buffered >= MAX_SOURCE_ENCODED_LEN
 	}
 }
 
@@ -370,10 +419,11 @@ where
 	type Item = io::Result<char>;
 
 	fn next(&mut self) -> Option<Self::Item> {
-		match self.source.fill_buf() {
+		self.buffered = 0;
+		let available = match self.source.fill_buf() {
 			Err(err) => return Some(Err(err)),
 			Ok([]) => return None,
-			Ok(_) => {}
+			Ok(buf) => buf.len(),
 		};
 
 		let pos = self.pos;
@@ -381,6 +431,7 @@ where
 		if let Err(err) = self.source.read_exact(&mut next) {
 			return Some(Err(err));
 		}
+		self.buffered = available.saturating_sub(next.len());
 		self.pos += next.len() as u64;
 
 		let unit = self.endianness.decode_u32(next);
